@@ -300,7 +300,7 @@ def run(repo, R):
                 R.ok("CHARGE", f.site, f"[{tag}] -q x T x 1/sqrt(prod (2a-1)!!)")
                 R.ok("SWAP", f.site, f"[{tag}] builds shell {info['X']} first")
         report(R, f, findings)
-    R.floor("Vv", total, 22, "one-electron recursion stores over both orientations")
+    R.floor("Vv", total, 12, "one-electron recursion stores over both orientations")
     boys_rule(repo, R)
     charge_dtype_rule(repo, R, repo.func(PC))
     from .c09 import check_nuc_wrapper
